@@ -17,8 +17,9 @@
 (*               the dict lookup does): an item is (node type, value up to   *)
 (*               ==, Python type only for untyped object constants); tuple   *)
 (*               and slice keys are sequences, a frozenset key is a SET.     *)
-(* TLC decides for every ordered pair of constants of the universe whether   *)
-(* they share a slot and whether CPython distinguishes them; the pairs that  *)
+(* TLC decides for every ordered pair of Python-equal constants of the        *)
+(* universe (and for ALL ordered pairs of a core universe) whether they      *)
+(* share a slot and whether CPython distinguishes them; the pairs that       *)
 (* share a slot although they differ are the hazards (published, replayed    *)
 (* on the real compiler).  Invariants: a shared key implies Python equality; *)
 (* every hazard is explained by exactly two root causes (sign of a float     *)
@@ -28,8 +29,9 @@
 (* are read from IOEnv.RECORDS and judged with the same ObsEq.               *)
 EXTENDS Integers, Sequences, FiniteSets, TLC, Json, IOUtils
 
-CONSTANTS Mode,         \* "variants" | "allpairs" | "real"
+CONSTANTS Mode,         \* "model" | "real"
           AtomSet,      \* atom names of the depth-1 universe
+          PairAtoms,    \* atom names of the core depth-1 universe whose constants are paired with EVERY other one
           InnerAtoms,   \* atom names inside the inner containers of depth-2 constants ({} = depth 1 only)
           PairOuter,    \* BOOLEAN: depth-2 tuples / frozensets of two inner containers
           Dump
@@ -39,6 +41,7 @@ CoreAtoms == {"0", "0.0", "-0.0", "False", "1", "1.0", "True", "None"}
 MidAtoms  == {"0", "0.0", "-0.0", "False", "1", "1.0", "True", "2", "B", "Bf", "None", "'s'"}
 ZeroOne   == {"0", "0.0", "-0.0", "1", "1.0", "True"}
 Zeros     == {"0.0", "-0.0", "1", "1.0"}
+QuickAtoms == {"0", "0.0", "-0.0", "False", "1", "True"}
 NoAtoms   == {}
 
 VARIABLES hist, grp
@@ -168,6 +171,7 @@ U2 == IF InnerAtoms = {} THEN {}
            \cup (IF PairOuter THEN {Tup(<<x, y>>, 0) : x \in Hashable1, y \in Hashable1} \cup {FS(<<x, y>>) : x \in Hashable1, y \in Hashable1}
                  ELSE {})
 Universe == U1 \cup U2
+CoreU == AtomsOf(PairAtoms) \cup Containers1(AtomsOf(PairAtoms))
 
 (* constants Python-equal to c by construction: every atom replaced by an equal atom of the universe, *)
 (* frozenset items also permuted                                                                       *)
@@ -190,11 +194,12 @@ InternFirst == /\ Mode # "real" /\ hist = <<>>
                /\ \E c \in Universe : hist' = <<c>>
                /\ UNCHANGED grp
 \* a second constant that Python considers equal to the first (the only candidates for sharing)
-InternEqualVariant == /\ Mode = "variants" /\ Len(hist) = 1
+InternEqualVariant == /\ Mode = "model" /\ Len(hist) = 1
                       /\ \E c \in (Variants(hist[1], AtomSet \cup InnerAtoms) \cap Universe) : hist' = Append(hist, c)
                       /\ UNCHANGED grp
-InternAny == /\ Mode = "allpairs" /\ Len(hist) = 1
-             /\ \E c \in Universe : hist' = Append(hist, c)
+\* any second constant of the core universe (decides that nothing else is ever shared)
+InternAny == /\ Mode = "model" /\ Len(hist) = 1 /\ hist[1] \in CoreU
+             /\ \E c \in CoreU : hist' = Append(hist, c)
              /\ UNCHANGED grp
 \* B3: the constants the real compiler mapped to one slot, in the order it met them
 PickGroup == /\ Mode = "real" /\ grp = 0
@@ -229,7 +234,7 @@ Hazard == Pair /\ Shared(hist[1], hist[2]) /\ ~ObsEq(hist[1], hist[2])
 
 PublishConst == (Dump /\ Mode # "real" /\ Len(hist) = 1) =>
                   PrintT("@@" \o ToJson([c |-> hist[1], obs |-> Obs(hist[1]), dedup |-> Key(hist[1]) # NoKey]))
-PublishPair == (Dump /\ Pair /\ (Mode = "variants" \/ Shared(hist[1], hist[2]) \/ PyEq(hist[1], hist[2]))) =>
+PublishPair == (Dump /\ Pair /\ (Shared(hist[1], hist[2]) \/ PyEq(hist[1], hist[2]))) =>
                   PrintT("@@" \o ToJson([a |-> hist[1], b |-> hist[2], shared |-> Shared(hist[1], hist[2]),
                                           obseq |-> ObsEq(hist[1], hist[2]), cause |-> Cause(hist[1], hist[2]),
                                           fshared |-> FShared(hist[1], hist[2])]))
